@@ -16,7 +16,11 @@ HIDDEN = {"resext": "reservoir-external", "delay": "delay", "nvar": "nvar"}
 
 def gen_scenario(rng, i, with_boom=None):
     with_boom = rng.random() < 0.3 if with_boom is None else with_boom
-    if rng.random() < 0.35 and not with_boom:
+    esn_models = None
+    if rng.random() < 0.15 and not with_boom:
+        nodes, esn_models, din = scengen.gen_esn(rng)
+        edges, entries = [[0, 1]], [0]
+    elif rng.random() < 0.35 and not with_boom:
         kind = rng.choice(["fun", "acc", "res", "resext", "delay", "nvar", "lin"])
         din = rng.randint(1, 2)
         nodes = [scengen.make_node(rng, 0, kind, din)]
@@ -36,7 +40,7 @@ def gen_scenario(rng, i, with_boom=None):
                     idc = sum(nodes[a]["odim"] for a in pc)
                     if idc != nodes[c]["idim"]:
                         nodes[c] = scengen.make_node(rng, c, "fun", idc)
-    sc = {"nodes": nodes, "models": scengen.chain_models(nodes, edges), "ops": [], "entries": entries, "din": din, "tag": i,
+    sc = {"nodes": nodes, "models": esn_models or scengen.chain_models(nodes, edges), "ops": [], "entries": entries, "din": din, "tag": i,
           "kinds": sorted(set(nd["kind"] for nd in nodes))}
     odim = {nd["id"]: nd["odim"] for nd in nodes}
     single = len(nodes) == 1
@@ -243,6 +247,13 @@ def _judge_esn(rng, tag):
             r3 = c.run(X, stateful=False, from_state={c.reservoir.name: s0, c.readout.name: y0})
             if not np.allclose(r3, rb, rtol=1e-10, atol=1e-10) or not np.allclose(c.reservoir.state(), before[0], atol=0):
                 return _viol("esn:from_state:wrong-start", "ESN(feedback=%s).run(stateful=False, from_state=s) does not start from s or does not restore the states" % fb, sc)
+            # from_state together with reset=True: the named nodes start from the given state, the others from null
+            r6 = c.run(X, reset=True, from_state={c.reservoir.name: s0})
+            b.reservoir.reset(to_state=s0); b.readout.reset()
+            r7 = b.run(X)
+            if not np.allclose(r6, r7, rtol=1e-10, atol=1e-10):
+                return _viol("esn:from_state:ignored-with-reset", "ESN(feedback=%s).run(reset=True, from_state=s) does not start the named node from s" % fb,
+                             sc, np.asarray(r7).tolist(), np.asarray(r6).tolist())
             r4 = c.run(X, reset=True)
             b.reservoir.reset(); b.readout.reset()
             r5 = b.run(X)
